@@ -13,6 +13,8 @@
 //!                                                      start is the position of the returned slice inside the
 //!                                                      text, `-` when the slice does not point into the text)
 //!                      (per call: …=panic:<message>)
+//!   lex tokens-batch|lines-batch <hex> <hex> …   the same for several texts (`-` = empty text), every output
+//!                      line prefixed with `<index>.`
 use std::panic;
 
 use dora_parser::{compute_line_column, compute_line_starts, get_line_content, lex, ParseError};
@@ -48,7 +50,23 @@ fn error_name(e: &ParseError) -> String {
 
 pub fn lexcmd(args: &[String]) {
     let sub = args[0].as_str();
-    let bytes = hex_to_bytes(args.get(1).map(|s| s.as_str()).unwrap_or(""));
+    if let Some(inner) = sub.strip_suffix("-batch") {
+        // lex tokens-batch|lines-batch <hex> <hex> …: the output of the single form per text, every line prefixed `<index>.`
+        // (`-` stands for the empty text); one process for many texts
+        for (i, h) in args[1..].iter().enumerate() {
+            let h = if h == "-" { "" } else { h.as_str() };
+            one(inner, h, &format!("{}.", i));
+        }
+        return;
+    }
+    one(sub, args.get(1).map(|s| s.as_str()).unwrap_or(""), "");
+}
+
+fn one(sub: &str, hex: &str, pre: &str) {
+    macro_rules! println {
+        ($($arg:tt)*) => { std::println!("{}{}", pre, format!($($arg)*)) };
+    }
+    let bytes = hex_to_bytes(hex);
     let text = match String::from_utf8(bytes) {
         Ok(s) => s,
         Err(_) => {
